@@ -1,6 +1,7 @@
 package main
 
 import (
+	"crypto/sha256"
 	"github.com/enfein/mieru/v3/pkg/cipher"
 	"github.com/enfein/mieru/v3/pkg/protocol"
 )
@@ -9,6 +10,8 @@ import (
 // The replay-cache parameters (streamReplayCapacity, packetReplayInterval_ns, ...) are registered
 // by consts_c06.go, KeyRefreshInterval_ns / DefaultOverhead by consts_c08.go.
 func init() {
+	// length of a registered credential (serveruser.buildCredential: [sha256.Size]byte)
+	z("C05_CredentialLen", int64(sha256.Size))
 	z("C05_packetNonHeaderPosition", int64(protocol.VerifC05PacketNonHeaderPosition))
 	z("C05_packetOverhead", int64(protocol.VerifC05PacketOverhead))
 	z("C05_streamOverhead", int64(protocol.VerifC05StreamOverhead))
